@@ -11,6 +11,7 @@ import (
 	"regexp"
 	"strconv"
 	"strings"
+	"sync"
 	"sync/atomic"
 	"time"
 
@@ -38,6 +39,7 @@ type run struct {
 	lsent []*replyShape
 
 	chans      []*muc.Channel
+	chMu       sync.Mutex // guards chans against the callbacks (which use the channels from the serve goroutine)
 	jst        []string // idle parked insel
 	lst        []string
 	jcancel    []context.CancelFunc
@@ -60,6 +62,7 @@ type run struct {
 	lastInv    *muc.Invitation // what the last mediated invitation fed says (nil: not checked)
 	lastHeld   string          // last `=` token (addresses held, as Me() reports them)
 	blockedBy  string          // which parked call ("j0", "l1") keeps the serve loop blocked
+	over       bool            // a write of the connection failed: the session is finished (Serve returns that error)
 	blocked    bool            // serve loop blocked behind a parked Join (hand-off or unclosed error reply)
 	nsync      int
 	ncall      int
@@ -115,8 +118,13 @@ func newRun(r *common.Run, addrs []int, cf nsConf) (*run, error) {
 		x.jst[i], x.lst[i] = "idle", "idle"
 	}
 	x.cl = &muc.Client{
-		HandleInvite:       func(inv muc.Invitation) { ctl.Emit("cb", "invite", inv) },
-		HandleUserPresence: func(_ stanza.Presence, it muc.Item) { ctl.Emit("cb", "upres", it) },
+		HandleInvite: func(inv muc.Invitation) { x.useChannels(); ctl.Emit("cb", "invite", inv) },
+		HandleUserPresence: func(_ stanza.Presence, it muc.Item) {
+			// an application's callback uses the channels ("the callback runs without the lock so
+			// that it may use the channels"): it asks every channel whether it is joined and who it is
+			x.useChannels()
+			ctl.Emit("cb", "upres", it)
+		},
 	}
 	if cf.nocb {
 		// the callbacks are optional: the bookkeeping must be the same without them
@@ -131,7 +139,51 @@ func newRun(r *common.Run, addrs []int, cf nsConf) (*run, error) {
 	return x, nil
 }
 
+// useChannels is what an application does inside its callbacks: it reads Joined() / Me() of its
+// channels.  A handler that calls the callback while it holds the Client's lock never gets an answer.
+func (x *run) useChannels() {
+	x.chMu.Lock()
+	chans := append([]*muc.Channel(nil), x.chans...)
+	x.chMu.Unlock()
+	done := make(chan struct{})
+	go func() {
+		defer close(done)
+		for _, ch := range chans {
+			if ch != nil {
+				ch.Joined()
+				ch.Me()
+			}
+		}
+	}()
+	select {
+	case <-done:
+	case <-time.After(watchdog / 2):
+		x.ctl.Emit("cb", "locked", nil)
+	}
+}
+
+func (x *run) setChan(c int, ch *muc.Channel) {
+	x.chMu.Lock()
+	x.chans[c] = ch
+	x.chMu.Unlock()
+}
+
+// refuseWrites makes every write of the session's connection fail (on) or work again (off); the
+// Len() calls order the change with the writers (lock / unlock of the buffer).
+func (x *run) refuseWrites(on bool) {
+	x.rs.Out.Len()
+	if on {
+		x.rs.Out.Fail = errors.New("verif: the connection refuses writes")
+	} else {
+		x.rs.Out.Fail = nil
+	}
+	x.rs.Out.Len()
+}
+
 func (x *run) problem(f string, a ...interface{}) {
+	if os.Getenv("VERIF_DEBUG") == "2" {
+		fmt.Fprintf(os.Stderr, "WIRE %q jid=%v outPos=%d\n", x.rs.Out.Bytes(), x.jid, x.outPos)
+	}
 	x.problems = append(x.problems, fmt.Sprintf(f, a...))
 }
 
@@ -170,6 +222,9 @@ func (x *run) awaitPresence(to string, unavailable bool) string {
 		out := string(x.rs.Out.Bytes())
 		for _, loc := range presRe.FindAllStringIndex(out[x.outPos:], -1) {
 			tag := out[x.outPos+loc[0] : x.outPos+loc[1]]
+			if strings.Contains(tag, `"kabort`) {
+				continue // the request of a Join call that gave up (it may reach the wire late): nobody answers it
+			}
 			if strings.Contains(tag, to) && strings.Contains(tag, `"unavailable"`) == unavailable {
 				x.outPos += loc[1]
 				if m := idRe.FindStringSubmatch(tag); m != nil {
@@ -208,7 +263,7 @@ func (x *run) served() string {
 // syncQ is sync without the oracle failure: false if the serve loop does not
 // answer (the caller says what that means).
 func (x *run) syncQ() bool {
-	if x.blocked || len(x.problems) > 0 {
+	if x.blocked || x.over || len(x.problems) > 0 {
 		return true
 	}
 	x.nsync++
@@ -258,6 +313,9 @@ func (x *run) callbacks() {
 					x.r.Fail("invite-once", "invitation-differs-from-the-one-sent:"+strings.SplitN(d, " ", 2)[0], x.lines(), "HandleInvite was given an invitation that differs from the one the room forwarded: "+d)
 				}
 			}
+		case e.Who == "cb" && e.What == "locked":
+			x.r.Fail("membership", "callback-cannot-use-the-channels", x.lines(), "a callback of the Client asked its channels for Joined() / Me() and got no answer: the handler calls it while it holds the lock those accessors need")
+			x.problem("callback called under the Client's lock")
 		case strings.HasPrefix(e.What, "panic:"):
 			x.r.Fail("no-panic", "panic:"+e.Who, x.lines(), e.What)
 			x.problem("%s %s", e.Who, e.What)
@@ -363,6 +421,7 @@ func (x *run) joinReturned(c int, e c06.Ev) {
 	case errors.As(err, &se):
 		x.trace = append(x.trace, fmt.Sprintf("R%dse", c))
 		if x.jready[c] != "err" {
+			x.problem("Join %d returned a stanza error nobody sent", c)
 			x.r.Fail("join-error", "stanza-error-without-error-reply", x.lines(), fmt.Sprintf("Join of channel %d returned a stanza error nobody sent: %v", c, err))
 		} else {
 			x.checkReturned("Join", c, se, x.jsent[c])
@@ -377,6 +436,11 @@ func (x *run) joinReturned(c int, e c06.Ev) {
 			}
 			x.r.Fail("join-success-iff", key, x.lines(), fmt.Sprintf("Join of channel %d returned %v (ready=%q)", c, err, x.jready[c]))
 		}
+		cleanup()
+	case x.jready[c] == "fail" || x.jready[c] == "noerr":
+		// the request could not be sent / the reply carries no error element: any other error, after
+		// the same clean-up as every failed join
+		x.trace = append(x.trace, fmt.Sprintf("R%doe", c))
 		cleanup()
 	case x.jready[c] == "err":
 		// the room answered the join presence with an error and the call ended with something else
@@ -415,6 +479,8 @@ func (x *run) leaveReturned(c int, e c06.Ev) {
 		if x.lready[c] != "ctx" {
 			x.r.Fail("leave-returns", "leave-missed-unavailable-presence", x.lines(), fmt.Sprintf("Leave of channel %d returned %v (ready=%q, token=%v)", c, err, x.lready[c], x.tok[c]))
 		}
+	case x.lready[c] == "fail" || x.lready[c] == "noerr":
+		x.trace = append(x.trace, fmt.Sprintf("D%doe", c)) // nothing of the bookkeeping moves
 	case x.lready[c] == "err":
 		x.r.Fail("leave-returns", "room's-error-not-returned:"+x.ns+":"+x.lsent[c].class(), x.lines(), fmt.Sprintf("the room answered the leave of channel %d with a stanza error (reply children %q, stanza namespace %s); Leave returned %q instead of it", c, x.lsent[c].raw, x.ns, err))
 		x.problem("Leave %d returned %v", c, err)
@@ -427,7 +493,7 @@ func (x *run) leaveReturned(c int, e c06.Ev) {
 func (x *run) feed(s string) { x.feedCh <- []byte(s) }
 
 func (x *run) act(a string) bool {
-	if len(x.problems) > 0 {
+	if len(x.problems) > 0 || x.over {
 		return false
 	}
 	num := func(k int) int { n, _ := strconv.Atoi(a[k:]); return n }
@@ -437,7 +503,8 @@ func (x *run) act(a string) bool {
 		// through JoinPresence with a presence of the caller's (own id, a type and — on a re-join — a
 		// to address that must have no effect)
 		custom := strings.HasSuffix(a, "!")
-		spec := strings.Split(strings.TrimSuffix(a[1:], "!"), "@")
+		faulty := strings.HasSuffix(a, "~") // the connection refuses every write while the call is made
+		spec := strings.Split(strings.TrimSuffix(strings.TrimSuffix(a[1:], "!"), "~"), "@")
 		c, _ := strconv.Atoi(spec[0])
 		if c >= len(x.addrs) || x.jst[c] != "idle" || x.blocked {
 			return false
@@ -459,6 +526,10 @@ func (x *run) act(a string) bool {
 		from := occ(x.cur[c])
 		x.ncall++
 		own := stanza.Presence{ID: fmt.Sprintf("own%d", x.ncall), Type: stanza.UnavailablePresence, To: jid.MustParse("elsewhere@conf.example.net/nobody")}
+		if faulty {
+			x.refuseWrites(true)
+			defer x.refuseWrites(false) // (also on the early exits below)
+		}
 		x.ctl.Go(label, func() {
 			var err error
 			switch {
@@ -466,11 +537,11 @@ func (x *run) act(a string) bool {
 				var ch *muc.Channel
 				own.To = from // the room comes from the presence here
 				ch, err = x.cl.JoinPresence(ctx, own, x.rs.S, opts...)
-				x.chans[c] = ch
+				x.setChan(c, ch)
 			case first:
 				var ch *muc.Channel
 				ch, err = x.cl.Join(ctx, from, x.rs.S, opts...)
-				x.chans[c] = ch
+				x.setChan(c, ch)
 			case custom:
 				err = x.chans[c].JoinPresence(ctx, own, opts...)
 			default:
@@ -494,8 +565,105 @@ func (x *run) act(a string) bool {
 		x.managed[want] = c
 		x.tok[c] = false
 		x.wait(isEv(label, "park:muc.join.select"), label+" before its select")
+		if faulty {
+			// nothing reaches the wire; the call ends with the error of the send as soon as it selects
+			x.jready[c], x.jst[c] = "fail", "insel"
+			x.ctl.Release(label, "muc.join.select")
+			if e, ok := x.wait(isEv(label, "ret:"), label+" return after the failed send"); ok {
+				x.joinReturned(c, e)
+			} else {
+				x.r.Fail("join-error", "join-did-not-return-after-failed-send", x.lines(), fmt.Sprintf("the join request of channel %d could not be sent; Join did not return", c))
+			}
+			// a failed write ends the session (Serve returns the error): the history ends here, apart
+			// from the final look at Joined()
+			x.over = true
+			x.callbacks()
+			x.sample()
+			return true
+		}
 		x.jid[c] = x.awaitPresence(occ(want).String(), false)
 		x.requestSent("Join", c, x.jid[c], custom, own.ID, occ(want).String())
+	case a[0] == 'K':
+		// K<c> / K<c>@<a>: a (further) Join call on channel c with a context that is already over.  While
+		// another Join of the channel is pending the hand-off slot is taken, so the call gives up at
+		// once; on an idle channel the select may also queue the request first — the call then fails
+		// with the context's error after the same clean-up.  Either way: the context's error (or
+		// ErrOccupantInUse), nothing registered that was not registered before, pending calls untouched.
+		spec := strings.Split(a[1:], "@")
+		c, cerr := strconv.Atoi(spec[0])
+		if cerr != nil || c >= len(x.addrs) || x.blocked || (x.chans[c] == nil && x.jst[c] != "idle") {
+			return false // (during the first Join of a channel there is no Channel value to call)
+		}
+		want := x.cur[c]
+		var opts []muc.Option
+		if len(spec) == 2 {
+			want, _ = strconv.Atoi(spec[1])
+			if want%10 != x.cur[c]%10 {
+				return false
+			}
+			opts = append(opts, muc.Nick(occ(want).Resourcepart()))
+		}
+		x.trace = append(x.trace, a)
+		ctx, cancel := context.WithCancel(context.Background())
+		cancel()
+		first := x.chans[c] == nil
+		from := occ(x.cur[c])
+		x.ncall++
+		type res struct {
+			ch  *muc.Channel
+			err error
+		}
+		done := make(chan res, 1)
+		go func() { // not a labelled goroutine: it never parks at the yield points
+			defer func() {
+				if p := recover(); p != nil {
+					x.ctl.Emit("k"+strconv.Itoa(c), "panic:"+fmt.Sprint(p), nil)
+					done <- res{nil, fmt.Errorf("panic: %v", p)}
+				}
+			}()
+			// (through JoinPresence with an id of the harness's: on an idle channel the select may queue
+			// the request before the context wins, and the presence may then reach the wire at any
+			// later moment; awaitPresence skips it by that id)
+			own := stanza.Presence{ID: fmt.Sprintf("kabort%d", x.ncall), To: from}
+			if first {
+				ch, err := x.cl.JoinPresence(ctx, own, x.rs.S, opts...)
+				done <- res{ch, err}
+				return
+			}
+			done <- res{nil, x.chans[c].JoinPresence(ctx, own, opts...)}
+		}()
+		var got res
+		select {
+		case got = <-done:
+		case <-time.After(watchdog):
+			x.r.Fail("join-error", "join-with-ended-context-did-not-return", x.lines(), fmt.Sprintf("Join of channel %d was called with a context that was already over and did not return", c))
+			x.problem("WATCHDOG: Join %d with an ended context did not return", c)
+			return true
+		}
+		if first {
+			x.setChan(c, got.ch)
+		}
+		other, taken := x.managed[want]
+		switch {
+		case got.err != nil && strings.Contains(got.err.Error(), "occupant JID is in use"):
+			x.trace = append(x.trace, fmt.Sprintf("R%dxr", c))
+			if !taken || other == c {
+				x.r.Fail("join-error", "refused-although-address-free", x.lines(), fmt.Sprintf("Join of channel %d was refused with ErrOccupantInUse although no other channel uses the address", c))
+			}
+		case errors.Is(got.err, context.Canceled):
+			x.trace = append(x.trace, fmt.Sprintf("R%dxc", c))
+			if taken && other != c {
+				x.r.Fail("membership", "second-channel-for-an-occupant-address-accepted", x.lines(), fmt.Sprintf("channel %d asked for occupant address %d which channel %d holds; the call was not refused", c, want, other))
+			}
+			x.tok[c] = false // the call emptied depart before it gave up
+		default:
+			x.r.Fail("join-error", "join-with-ended-context-returned-something-else", x.lines(), fmt.Sprintf("Join of channel %d was called with a context that was already over and returned %v", c, got.err))
+			x.problem("Join %d with an ended context returned %v", c, got.err)
+		}
+		if x.jst[c] == "idle" {
+			// the request may have been queued and even written: let the session settle and skip it
+			x.sync()
+		}
 	case a[0] == 's':
 		c := num(1)
 		if c >= len(x.addrs) || x.jst[c] != "parked" || (x.blocked && x.blockedBy != "j"+strconv.Itoa(c)) {
@@ -633,6 +801,9 @@ func (x *run) act(a string) bool {
 			if shape == nil {
 				shape = &replyShape{raw: "e", form: 'e'}
 			}
+			if shape.form == '0' {
+				x.jready[c] = "noerr" // a type='error' reply without an error element
+			}
 			x.jsent[c] = shape
 			x.feed(fmt.Sprintf(`<presence xmlns="%s" from="%s" id="%s" type="error">%s</presence>`, x.ns, occ(x.req[c]), x.jid[c], shape.xml(x.ns, false)))
 		} else {
@@ -650,9 +821,14 @@ func (x *run) act(a string) bool {
 	case a[0] == 'L':
 		// L<c>; a trailing `!`: LeavePresence with a status and a presence of the caller's
 		custom := strings.HasSuffix(a, "!")
-		c, _ := strconv.Atoi(strings.TrimSuffix(a[1:], "!"))
+		faulty := strings.HasSuffix(a, "~")
+		c, _ := strconv.Atoi(strings.TrimSuffix(strings.TrimSuffix(a[1:], "!"), "~"))
 		if c >= len(x.addrs) || x.lst[c] != "idle" || x.chans[c] == nil || x.blocked || x.jst[c] != "idle" {
 			return false
+		}
+		if faulty {
+			x.refuseWrites(true)
+			defer x.refuseWrites(false)
 		}
 		x.trace = append(x.trace, a)
 		ctx, cancel := context.WithCancel(context.Background())
@@ -671,6 +847,19 @@ func (x *run) act(a string) bool {
 		})
 		x.lst[c], x.lready[c] = "parked", ""
 		x.wait(isEv(label, "park:muc.leave.select"), label+" before its select")
+		if faulty {
+			x.lready[c], x.lst[c] = "fail", "insel"
+			x.ctl.Release(label, "muc.leave.select")
+			if e, ok := x.wait(isEv(label, "ret:"), label+" return after the failed send"); ok {
+				x.leaveReturned(c, e)
+			} else {
+				x.r.Fail("leave-returns", "leave-did-not-return-after-failed-send", x.lines(), fmt.Sprintf("the leave request of channel %d could not be sent; Leave did not return", c))
+			}
+			x.over = true
+			x.callbacks()
+			x.sample()
+			return true
+		}
 		x.lid[c] = x.awaitPresence(occ(x.cur[c]).String(), true)
 		x.requestSent("Leave", c, x.lid[c], custom, own.ID, occ(x.cur[c]).String())
 	case a[0] == 'l':
@@ -726,6 +915,9 @@ func (x *run) act(a string) bool {
 			x.lready[c] = "err"
 			if shape == nil {
 				shape = &replyShape{raw: "e", form: 'e'}
+			}
+			if shape.form == '0' {
+				x.lready[c] = "noerr"
 			}
 			x.lsent[c] = shape
 			x.feed(fmt.Sprintf(`<presence xmlns="%s" from="%s" id="%s" type="error">%s</presence>`, x.ns, occ(x.cur[c]), x.lid[c], shape.xml(x.ns, true)))
@@ -790,21 +982,24 @@ func (x *run) act(a string) bool {
 				sb.WriteString(`<thread xmlns="urn:verif">t</thread>`)
 			case 'm':
 				sb.WriteString(`<x xmlns="http://jabber.org/protocol/muc#user"><invite from="friend@example.net/x"><reason>come</reason></invite></x>`)
-				want = 1
+				want++
 				x.lastInv = &muc.Invitation{Reason: "come"}
 			case 'P':
 				sb.WriteString(`<x xmlns="http://jabber.org/protocol/muc#user"><invite from="friend@example.net/x"><reason>join us</reason><continue thread="t1"/></invite><password>pw</password></x>`)
-				want = 1
+				want++
 				x.lastInv = &muc.Invitation{Reason: "join us", Password: "pw", Continue: true, Thread: "t1"}
 			case 'M':
 				sb.WriteString(`<x xmlns="http://jabber.org/protocol/muc#user"><invite from="friend@example.net/x"/><invite from="other@example.net/y"/></x>`)
-				want = 1
+				want++
 				x.lastInv = nil
 			case 'd':
 				sb.WriteString(`<x xmlns="http://jabber.org/protocol/muc#user"><decline from="friend@example.net/x"/></x>`)
 			}
 		}
 		sb.WriteString(`</message>`)
+		if want != 1 {
+			x.lastInv = nil // the content is compared when the message carries exactly one invitation
+		}
 		x.feed(sb.String())
 		x.sync()
 		x.callbacks()
@@ -813,7 +1008,13 @@ func (x *run) act(a string) bool {
 			want = 0
 		}
 		if x.inv-before != want {
-			x.r.Fail("invite-once", fmt.Sprintf("callback-called-%d-times-want-%d:first-child-%c", x.inv-before, want, kids[0]), x.lines(), fmt.Sprintf("message children %q: HandleInvite was called %d times, the message carries %d mediated invitation element(s)", kids, x.inv-before, want))
+			key := fmt.Sprintf("callback-called-%d-times-want-%d:first-child-%c", x.inv-before, want, kids[0])
+			if strings.Count(kids, "m")+strings.Count(kids, "M")+strings.Count(kids, "P")+strings.Count(kids, "d") > 1 {
+				// the multiplexer calls the handler once per muc#user payload with the whole message, the
+				// handler keeps the last payload only (known finding)
+				key = "several-muc-user-payloads-in-one-message"
+			}
+			x.r.Fail("invite-once", key, x.lines(), fmt.Sprintf("message children %q: HandleInvite was called %d times, the message carries %d mediated invitation payload(s)", kids, x.inv-before, want))
 		}
 	case a == "N":
 		if x.blocked {
@@ -998,9 +1199,29 @@ func randSched(rnd *common.Rand, n, length int) []string {
 	for len(out) < length {
 		c := strconv.Itoa(rnd.Intn(n))
 		a := strconv.Itoa(rnd.Intn(n+1) + 10*(rnd.Intn(3)/2))
-		switch rnd.Intn(21) {
+		switch rnd.Intn(24) {
 		case 20:
 			out = append(out, "Xl"+c)
+		case 21, 22:
+			// a Join call that gives up at once (its context is over), also under another nickname
+			k := "K" + c
+			if rnd.Chance(1, 2) {
+				ci, _ := strconv.Atoi(c)
+				k += "@" + strconv.Itoa(ci%10+10*rnd.Intn(3))
+			}
+			out = append(out, k)
+		case 23:
+			// the request cannot be sent / the reply has no error element
+			switch rnd.Intn(12) {
+			case 0:
+				out = append(out, "J"+c+"~") // (ends the session: the rest of the history is not run)
+			case 1:
+				out = append(out, "L"+c+"~")
+			case 2, 3, 4, 5, 6:
+				out = append(out, "Ej"+c+":"+[]string{"", "x", "w", "sx"}[rnd.Intn(4)]+"0")
+			default:
+				out = append(out, "El"+c+":"+[]string{"", "x", "w", "sx"}[rnd.Intn(4)]+"0")
+			}
 		case 0, 1, 2:
 			j := "J" + c
 			if rnd.Chance(1, 4) {
@@ -1040,18 +1261,8 @@ func randSched(rnd *common.Rand, n, length int) []string {
 		case 17:
 			out = append(out, "Z"+string("jl"[rnd.Intn(2)])+c)
 		case 18:
-			// a mediated invitation among other children, in a random order
-			kids := []byte{"mmP"[rnd.Intn(3)]}
-			for _, k := range "bslu" {
-				if rnd.Chance(1, 2) {
-					kids = append(kids, byte(k))
-				}
-			}
-			for i := len(kids) - 1; i > 0; i-- {
-				j := rnd.Intn(i + 1)
-				kids[i], kids[j] = kids[j], kids[i]
-			}
-			out = append(out, "I"+string(kids))
+			// 0-3 muc#user payloads (invitations, declines) among other children, in a random order
+			out = append(out, randInvite(rnd))
 		default:
 			out = append(out, "N")
 		}
@@ -1127,6 +1338,7 @@ func Run(r *common.Run) error {
 		r.Mark("case corpus %d", n)
 		runCase(r, parseAddrs(c.addrs), strings.Split(c.sched, ","), "corpus")
 	}
+	nE := runCorpusE(r)
 	if r.Race() {
 		r.Notes = append(r.Notes, "race-detector run: concurrent scenario and corpus only")
 		return nil
@@ -1143,6 +1355,7 @@ func Run(r *common.Run) error {
 	}
 	nRep := runReplies(r)
 	nC := runContention(r)
+	nO := runOverlap(r)
 	nR := r.Pick(1200, 20000)
 	for n := 0; n < nR && !tooMany(r); n++ {
 		r.Mark("case random %d", n)
@@ -1156,6 +1369,7 @@ func Run(r *common.Run) error {
 		}
 		runCase(r, addrs, append(randConf(r.Rnd), randSched(r.Rnd, k, 6+r.Rnd.Intn(30))...), "random")
 	}
+	r.Notes = append(r.Notes, fmt.Sprintf("round E: %d corpus histories and %d enumerated ones with overlapping Join calls on one channel, write faults, error replies without an error element, several muc#user payloads per message", nE, nO))
 	r.Notes = append(r.Notes, fmt.Sprintf("histories: %d corpus + %d payloads (affiliation x role x status codes x item shapes) + %d error replies (stanza namespace of the session x echoed children x form of the error) + %d contention (macro operations on channels sharing an occupant address / swapping nicknames, exhaustive) + %d random (1-3 channels, presences also for an address nobody joined, random payloads)", len(corpus), len(pls), nRep, nC, nR))
 	return nil
 }
